@@ -414,6 +414,26 @@ func ticker(sel int64) types.CoinSymbol {
 	return types.StrToCoinSymbol(string(s))
 }
 
+// lookalike: a creation in eight names a ticker in use (or the base coin's) behind a leading zero byte -
+// a different 10-byte value that reads the same.
+func (v *View) lookalike(op *Op, sym types.CoinSymbol) types.CoinSymbol {
+	if op.x(4)%8 != 7 {
+		return sym
+	}
+	base := types.GetBaseCoin().String()
+	if n := len(v.S.CoinIDs); n > 0 && op.x(5)%5 != 0 {
+		if c := v.S.Coins[v.S.CoinIDs[mod(op.x(5), n)]]; c != nil && c.Version == 0 {
+			base = c.Symbol.String()
+		}
+	}
+	if len(base) >= 10 || len(base) < 3 {
+		return sym
+	}
+	var z types.CoinSymbol
+	copy(z[1+mod(op.x(6), 10-len(base)):], base)
+	return z
+}
+
 func e18(n int64) *big.Int { return new(big.Int).Mul(big.NewInt(n), big.NewInt(1e18)) }
 
 // Resolve turns an Op into signed transaction bytes against the view. It never consults a PRNG.
@@ -655,7 +675,7 @@ func (v *View) Resolve(op Op) *TxMeta {
 		}
 		typ, data = transaction.TypeBuyCoin, transaction.BuyCoinData{CoinToBuy: types.CoinID(best.ID), ValueToBuy: val, CoinToSell: 0, MaximumValueToSell: bal(0)}
 	case "createcoin", "recreatecoin":
-		sym := ticker(op.x(0))
+		sym := v.lookalike(&op, ticker(op.x(0)))
 		if op.K == "recreatecoin" && len(v.S.CoinIDs) > 0 && op.x(3)%4 != 3 {
 			c := v.S.Coins[v.S.CoinIDs[mod(op.x(0), len(v.S.CoinIDs))]]
 			sym = c.Symbol
@@ -676,7 +696,7 @@ func (v *View) Resolve(op Op) *TxMeta {
 			typ, data = transaction.TypeRecreateCoin, transaction.RecreateCoinData{Name: "r", Symbol: sym, InitialAmount: amount, InitialReserve: reserve, ConstantReserveRatio: crr, MaxSupply: maxs}
 		}
 	case "createtoken", "recreatetoken":
-		sym := ticker(op.x(0))
+		sym := v.lookalike(&op, ticker(op.x(0)))
 		if op.K == "recreatetoken" && len(v.S.CoinIDs) > 0 && op.x(3)%4 != 3 {
 			c := v.S.Coins[v.S.CoinIDs[mod(op.x(0), len(v.S.CoinIDs))]]
 			sym = c.Symbol
@@ -832,7 +852,34 @@ func (v *View) Resolve(op Op) *TxMeta {
 		typ, data = transaction.TypeCreateSwapPool, transaction.CreateSwapPoolData{Coin0: c0, Coin1: c1, Volume0: op.v(0).resolve(bal(c0)), Volume1: op.v(1).resolve(bal(c1))}
 	case "addliq":
 		c0, c1 := v.pool(op.x(0))
-		typ, data = transaction.TypeAddLiquidity, transaction.AddLiquidityDataV260{Coin0: c0, Coin1: c1, Volume0: op.v(0).resolve(bal(c0)), MaximumVolume1: op.v(1).resolve(bal(c1))}
+		vol0 := op.v(0).resolve(bal(c0))
+		if op.x(2)%6 == 0 && op.x(0) >= 0 && len(v.S.Pools) > 0 {
+			// a dust addition to the skewed side: the matching amount of the second coin rounds to 0, 1 or 2 units
+			pl := v.S.Pools[mod(op.x(0), len(v.S.Pools))]
+			r0, r1 := bi(pl.Reserve0), bi(pl.Reserve1)
+			c0, c1 = types.CoinID(pl.Coin0), types.CoinID(pl.Coin1)
+			if r0 != nil && r1 != nil && r0.Cmp(r1) < 0 {
+				r0, r1, c0, c1 = r1, r0, c1, c0
+			}
+			if r0 != nil && r1 != nil && r1.Sign() > 0 {
+				k := []int64{1, 2, 3, 4, 5, 8, 16}[mod(op.x(3), 7)]
+				vol0 = new(big.Int).Div(new(big.Int).Mul(new(big.Int).Div(r0, r1), big.NewInt(k)), big.NewInt(4))
+				if vol0.Sign() <= 0 {
+					vol0 = big.NewInt(1)
+				}
+				if bal(c1).Sign() == 0 || bal(c0).Cmp(vol0) < 0 {
+					holder := sender
+					for i := 0; i < v.NAcct; i++ {
+						a := Acct(i).Addr
+						if v.S.Balance(a, uint64(c0)).Cmp(vol0) >= 0 && v.S.Balance(a, uint64(c1)).Cmp(v.S.Balance(holder, uint64(c1))) > 0 {
+							holder = a
+						}
+					}
+					asAddr(holder, 0)
+				}
+			}
+		}
+		typ, data = transaction.TypeAddLiquidity, transaction.AddLiquidityDataV260{Coin0: c0, Coin1: c1, Volume0: vol0, MaximumVolume1: op.v(1).resolve(bal(c1))}
 	case "remliq":
 		c0, c1 := v.pool(op.x(0))
 		lp := v.lpCoin(c0, c1)
